@@ -331,22 +331,23 @@ def install_thread_seam(scared):
         return False
     _PATCH.update(start=orig_start, run=orig_run, join=orig_join)
 
-    def start(self, container):
+    def start(self, *args, **kw):
+        # signature-agnostic wrappers: a refactoring may add parameters to start()/run()/join()
         sim = SIM
         if sim is None or tname() is None:
-            return orig_start(self, container)
+            return orig_start(self, *args, **kw)
         sim.nstart = getattr(sim, 'nstart', 0) + 1
         label = 'r%dacc%d' % (sim.run_index, 1 + (sim.nstart - 1) % 2)
         self._sim_label = label
         st = sim.register(label, 'unstarted')
         sim.objs[label] = self
         sim.ev('start', label)
-        r = orig_start(self, container)
+        r = orig_start(self, *args, **kw)
         st['parked'].wait()
         st['state'] = 'runnable'
         return r
 
-    def run(self, container=None):
+    def run(self, *args, **kw):
         sim = SIM
         label = getattr(self, '_sim_label', None)
         if sim is not None and label and threading.current_thread() is self and label in sim.threads and sim.threads[label]['state'] == 'unstarted':
@@ -358,14 +359,14 @@ def install_thread_seam(scared):
                 if not sim.aborted:
                     sim.settle()
                     sys.settrace(global_tracer)
-                return orig_run(self, container)
+                return orig_run(self, *args, **kw)
             except SimAbort:
                 return None
             finally:
                 sys.settrace(None)
                 self._sim_name = None
                 sim.finish(label)
-        return orig_run(self, container)
+        return orig_run(self, *args, **kw)
 
     def join(self, *args, **kw):
         sim = SIM
